@@ -48,7 +48,7 @@ def map_pi_literals(ex, quarters=range(-16, 17)):
         cf = float(c)
         for v in {cf * pi64, float(Fraction(pi64) * c)}: m.setdefault((64, v), t)
         for v in {_r32(cf * pi32), _r32(cf * pi64), _r32(float(Fraction(pi32) * c))}: m.setdefault((32, v), t)
-        m.setdefault((64, cf * pi32), t)       # static_cast<double>(float literal)
+#        m.setdefault((64, cf * pi32), t)       # static_cast<double>(float literal)
     return m
 
 # ---------------------------------------------------------------------------------------------- polynomial normal form
